@@ -977,6 +977,33 @@ fn scale(tier: Tier, totals: &mut Totals) {
             );
         }
     }
+    // a collection made from others is a collection of its own - also when it is made from exactly one (or
+    // none): a new handle, its own items; changing or releasing either leaves the other as it was
+    for (nin, inputs) in [(0usize, ""), (1, "${a}"), (2, "${a} ${a}"), (3, "${a} ${e} ${a}")] {
+        let text = format!(
+            "a = array x y\ne = array\nb = array_concat {inputs}\nsame = equals \"${{a}}\" \"${{b}}\"\nsame_e = equals \"${{e}}\" \"${{b}}\"\nlb0 = array_length ${{b}}\narray_push ${{b}} z\nla = array_length ${{a}}\nle = array_length ${{e}}\nlb = array_length ${{b}}\nra = release ${{a}}\nalive = is_array ${{b}}\nlb2 = array_length ${{b}}\nrb = release ${{b}}\nre = release ${{e}}",
+            inputs = inputs
+        );
+        let n = if nin == 3 { 4 } else { 2 * nin };
+        crate::util::scale_case_totals(
+            totals,
+            &format!("concat-is-a-copy inputs {}", nin),
+            &text,
+            &[
+                ("same", Some("false".into())),
+                ("same_e", Some("false".into())),
+                ("lb0", Some(n.to_string())),
+                ("la", Some("2".into())),
+                ("le", Some("0".into())),
+                ("lb", Some((n + 1).to_string())),
+                ("ra", Some("true".into())),
+                ("alive", Some("true".into())),
+                ("lb2", Some((n + 1).to_string())),
+                ("rb", Some("true".into())),
+                ("re", Some("true".into())),
+            ],
+        );
+    }
     // an item is data, whatever it reads like: texts that look like options of the commands the library's
     // own scripts use (-i, --ignore-case, -r, --recursive, --copy ...), words of the language, numbers,
     // brackets, blanks - held in an array, a map and a set, looked for, joined, copied, listed
@@ -1154,7 +1181,7 @@ pub fn replay(case: &Value) -> Result<String, String> {
     Ok(out.join("\n"))
 }
 
-pub const RULE: &str = "explicit-state breadth-first search from the empty handle table: creators (array, range, map, set_new, set_from_array, array_concat, set_to_array, map_keys), every mutator and query of the statement, is_array/is_map/is_set, release and release -r, each given every live handle, a released handle, an unknown text and a text that looks like a handle, indexes {0,1,2,-1,x}, values {a, empty, 'b c', 0 (, false, look-alike handle, e-acute)} and the handle of the collection itself or of the other live collection as array item, set member, map key and map value (release -r follows such references); growing operations are disabled at 2 live handles / length 2 so the space is finite and searched to a fixpoint. Each transition runs the real command, compares its output with the model (vector / map / set per live handle) and then the complete handle table (every collection equal to the model, no other entry) and the variable map (must stay empty). States are de-duplicated on the multiset of collection contents plus the implementation's remaining state. evaluations = transitions; distinct_nontrivial = distinct states. Scale cases (scripts, results computed in Rust): an array / a map / a set with 10/70/300 (thorough 1000, 3000) items built, read at both ends, joined, searched, emptied; as many live handles held by one outer array and taken by a recursive release. Index texts: 23 texts (signs, blanks, fractions, other digits, beyond the machine word) x arrays of 0/1/3 items through array_get / array_set / array_remove against usize parsing. Joins of non-ASCII items and separators. The quick sizes include 4000 items (thorough 20000), with set_from_array and array_concat of the big array. Variadic calls: array_concat with 2, 3, 1, 4, 2 collections in one run, in every rotation, then a failing call and set_from_array. Fixed cases run at the threshold sizes (p-1, p, p+1 around powers of two and ten), each script in a child process. Recursive release: every combination of array / map / set over three and four levels, each holding the handle of the next, released from the top with -r: no level is left, a bystander is The big-array case also builds range 0 n (its length, last item, sum through for/in and array_contains of the last value). Awkward items: 30 item texts that read like options (-i, --ignore-case, -r, --copy ...), words of the language, numbers, brackets, blanks, held in an array, a map (as value and as key) and a set: array_contains, array_join, array_get, map_contains_value, map_contains_key, map_get, set_contains, set_from_array, array_concat, for/in listing, array_is_empty give what the reference gives. Recursive release of shared collections: an array of three (thorough four) slots, each holding one of four collections (array, set, map, an array holding the first array) in every combination: after release -r everything reachable is gone, what is not reachable stays.";
+pub const RULE: &str = "explicit-state breadth-first search from the empty handle table: creators (array, range, map, set_new, set_from_array, array_concat, set_to_array, map_keys), every mutator and query of the statement, is_array/is_map/is_set, release and release -r, each given every live handle, a released handle, an unknown text and a text that looks like a handle, indexes {0,1,2,-1,x}, values {a, empty, 'b c', 0 (, false, look-alike handle, e-acute)} and the handle of the collection itself or of the other live collection as array item, set member, map key and map value (release -r follows such references); growing operations are disabled at 2 live handles / length 2 so the space is finite and searched to a fixpoint. Each transition runs the real command, compares its output with the model (vector / map / set per live handle) and then the complete handle table (every collection equal to the model, no other entry) and the variable map (must stay empty). States are de-duplicated on the multiset of collection contents plus the implementation's remaining state. evaluations = transitions; distinct_nontrivial = distinct states. Scale cases (scripts, results computed in Rust): an array / a map / a set with 10/70/300 (thorough 1000, 3000) items built, read at both ends, joined, searched, emptied; as many live handles held by one outer array and taken by a recursive release. Index texts: 23 texts (signs, blanks, fractions, other digits, beyond the machine word) x arrays of 0/1/3 items through array_get / array_set / array_remove against usize parsing. Joins of non-ASCII items and separators. The quick sizes include 4000 items (thorough 20000), with set_from_array and array_concat of the big array. Variadic calls: array_concat with 2, 3, 1, 4, 2 collections in one run, in every rotation, then a failing call and set_from_array. Fixed cases run at the threshold sizes (p-1, p, p+1 around powers of two and ten), each script in a child process. Recursive release: every combination of array / map / set over three and four levels, each holding the handle of the next, released from the top with -r: no level is left, a bystander is The big-array case also builds range 0 n (its length, last item, sum through for/in and array_contains of the last value). Awkward items: 30 item texts that read like options (-i, --ignore-case, -r, --copy ...), words of the language, numbers, brackets, blanks, held in an array, a map (as value and as key) and a set: array_contains, array_join, array_get, map_contains_value, map_contains_key, map_get, set_contains, set_from_array, array_concat, for/in listing, array_is_empty give what the reference gives. Recursive release of shared collections: an array of three (thorough four) slots, each holding one of four collections (array, set, map, an array holding the first array) in every combination: after release -r everything reachable is gone, what is not reachable stays. Concat is a copy: array_concat of 0, 1, 2 and 3 inputs gives a new handle with its own items; pushing to it and releasing an input leave the others as they were.";
 pub const ASSUMPTIONS: &[&str] = &["listings whose order the documentation does not fix (map_keys, set_to_array) are compared as multisets and then sorted in place by the harness", "random handle names are opaque; a collision of two 20-character random names is outside the model", "operations are run through run_instruction with already-bound arguments"];
 pub const EXHAUSTIVE: bool = true;
 pub const WALL_CAP_S: (u64, u64) = (50, 1500);
